@@ -1648,6 +1648,13 @@ impl TypeChecker {
         if let Some(res) = seen.get(&old_ty) {
             return *res;
         }
+        // Resolved scalar types have no structure to instantiate: share the node.
+        if matches!(
+            self.find_type(old_ty),
+            Type::Int | Type::Float | Type::Bool | Type::Str | Type::Nil | Type::Void | Type::Ty
+        ) {
+            return old_ty;
+        }
         let new_ty = self.push_type(Type::Unknown);
         seen.insert(old_ty, new_ty);
 
